@@ -36,7 +36,8 @@ SOURCE_FUNCS = [
     (_SP, "PropertyLayer"), (_SP, "_PropertyGrid"), (_SP, "ufunc_requires_additional_input"),
     (_SP, "is_single_argument_function"), (_SP, "_Grid.move_agent"), (_SP, "_Grid.is_cell_empty"),
     (_SP, "SingleGrid.place_agent"), (_SP, "SingleGrid.move_agent"), (_SP, "SingleGrid.remove_agent"),
-    (_SP, "MultiGrid.place_agent"), (_SP, "MultiGrid.remove_agent"), (_SP, "_HexGrid.get_neighborhood_mask"),
+    (_SP, "MultiGrid.place_agent"), (_SP, "MultiGrid.remove_agent"), (_SP, "_Grid.empties"), (_SP, "_Grid.exists_empty_cells"),
+    (_SP, "_Grid.remove_agent"), (_SP, "_Grid.place_agent"), (_SP, "_HexGrid.get_neighborhood_mask"),
 ]
 RULE = ("histories = one grid of at most 12 cells (discrete: OrthogonalMoore / OrthogonalVonNeumann / Hex grid, 2-D and 3-D, "
         "with and without torus, cell capacity None / 0 / 1 / 2 / 1.0 / 2.0; legacy: SingleGrid, MultiGrid, HexSingleGrid, "
@@ -282,6 +283,9 @@ class _G:
         """place / move / move_relative / remove; also the rejected ones (occupied SingleGrid cell, full cell,
         no cell in that direction)"""
         r = self.rng
+        if self.impl == "legacy" and r.random() < 0.15:
+            self.ops.append(["empties", r.randrange(2)])
+            return
         k = r.random()
         single = self.impl == "legacy" and not self.multi
 
@@ -577,7 +581,7 @@ def _edge_cases(rng, n, big=0):
             elif x < 0.85:
                 ops.append(["eagg", rng.choice([1, 2])])
             elif n_agents:
-                ops.append([rng.choice(["emove", "erm"]), rng.choice([1, 5, n_agents // 3 + 1]), rng.randrange(10 ** 6)])
+                ops.append([rng.choice(["emove", "erm", "erm", "eempties"]), rng.choice([1, 5, n_agents // 3 + 1, n_agents]), rng.randrange(10 ** 6)])
         out.append({"impl": impl, "cls": ("OrthogonalMooreGrid" if impl == "discrete" else ("MultiGrid" if multi else "SingleGrid")),
                     "dims": list(dims), "cap": 0, "torus": False, "stream": "edge", "dtype": dtype, "vals": vals, "nan": nan_cells, "ops": ops})
     return out
@@ -675,6 +679,11 @@ def _run_edge(case):
                     else:
                         grid.remove_agent(a)
                     del where[a]
+            elif k == "eempties":
+                if not discrete:
+                    got = {tuple(c) for c in grid.empties}
+                    if got != {c for c in coords if c not in occupied()}:
+                        fail("empties/mismatch", i, f"{op}: grid.empties has {len(got)} cells, {len(coords) - len(occupied())} hold no agent")
             elif k == "ew":
                 c = coords[op[1] % len(coords)]
                 v = npdt.type(op[2])
@@ -740,7 +749,7 @@ def _run_edge(case):
             badc = [c for c in coords if c not in nan and py(grid._cells[c].p1) != py(data[c])]
             if badc:
                 fail("one-value/cell-vs-layer", i, f"after {op}: cell{badc[0]}.p1 != layer value")
-        if k in ("eplace", "emove", "erm"):
+        if k in ("eplace", "emove", "erm", "eempties"):
             occ = occupied()
             em = grid._mesa_property_layers["empty"].data if discrete else grid.empty_mask
             wrong = [c for c in coords if bool(em[c]) != (c not in occ)]
@@ -888,6 +897,12 @@ def enumerate_cases(tier, broken=False):
                                ["rm", 1], ["rm", 2], *sel, ["move", 4, c0], ["move", 4, c0], *sel]
                         yield {"impl": impl, "cls": cls, "dims": list(dims), "cap": cap, "ops": ops}
             else:
+                for cls in ("MultiGrid", "HexMultiGrid", "SingleGrid"):
+                    for when in (0, 2, 4):
+                        ops = [["place", 1, c0], ["place", 2, c0 if "Multi" in cls else c1], ["place", 3, c1], ["rm", 3], *sel,
+                               ["rm", 1], ["rm", 2], *sel, ["place", 4, c1], ["move", 4, c0], *sel, ["rm", 4], *sel]
+                        ops.insert(when, ["empties", when % 2])
+                        yield {"impl": impl, "cls": cls, "dims": list(dims), "cap": 0, "ops": ops}
                 for cls in ("SingleGrid", "MultiGrid", "HexSingleGrid", "HexMultiGrid"):
                     if True:
                         masks = [["nmask", c, ic, r, mo] for c in coords[:4] for ic in (False, True) for r in (1, 2) for mo in (False, True)]
@@ -1423,7 +1438,7 @@ def _exc_kind(e):
 SITE = {"add": "add_property_layer", "create": "add_property_layer", "remove": "remove_property_layer",
         "lwrite": "set_cell", "modcell": "modify_cell", "modcells": "modify_cells", "set": "set_cells",
         "setarr": "set_cells", "select": "select_cells", "place": "place_agent", "cellwrite": "cell-write",
-        "move": "move_agent", "mrel": "move_relative", "rm": "remove_agent", "new": "PropertyLayer", "nmask": "get_neighborhood_mask", "agg": "aggregate", "probe": "modify_cells-dtype", "lsel": "layer_select_cells", "boom": "user-callable"}
+        "move": "move_agent", "mrel": "move_relative", "rm": "remove_agent", "new": "PropertyLayer", "nmask": "get_neighborhood_mask", "agg": "aggregate", "probe": "modify_cells-dtype", "lsel": "layer_select_cells", "boom": "user-callable", "empties": "empties"}
 
 
 FLOATS = [0.1, 0.2, 0.3, 1 / 3, 2 / 3, 1e-300, 1e300, -0.0, 0.7, 2 ** 53 + 2.0, -1.1, 1e-9, 123456.789]
@@ -1876,6 +1891,20 @@ def run_impl(case):
                         R.fail("aggregate/wrong-value", i,
                                f"{op}: {['sum', 'max', 'min', 'mean'][akind]} over layer {Lr.name!r} gives {r!r} (= {gotl} in layer units), the values {vals} give {exp}")
                     result = ("ok", gotl)
+            elif kind == "empties":
+                # legacy: grid.empties / exists_empty_cells() read at an arbitrary point (builds the lazy set; later mask
+                # updates take another path); compared with the REAL cell contents; no observable change: the model skips it
+                if discrete:
+                    result = ("skip",)
+                else:
+                    occ = set(R.sh_agents.values())
+                    exp = {c for c in R.coords if c not in occ}
+                    got = set(R.grid.empties) if op[1] == 0 else None
+                    ex = R.grid.exists_empty_cells()
+                    if (got is not None and {tuple(c) for c in got} != exp) or bool(ex) != bool(exp):
+                        R.fail("empties/mismatch", i, f"{op}: grid.empties = {sorted(got) if got is not None else '-'}, exists_empty_cells() = {ex}, "
+                                                      f"the cells without an agent are {sorted(exp)}")
+                    result = ("skip",)
             elif kind == "boom":
                 # a condition / operation supplied by the user that RAISES part-way: nothing may have changed, and
                 # the history continues from that state (oracle only; the model skips the operation)
@@ -2157,7 +2186,7 @@ def _op(case, op, extra=None):
         if op[2] == 3 and n & (n - 1):
             return "Skip"
         return f"Aggregate {_ref(op[1])} {L.z(op[2])}"
-    if k == "boom":
+    if k in ("boom", "empties"):
         return "Skip"
     if k == "lsel":
         return f"LayerSelect {_ref(op[1])} {_cond(op[2])} {L.b(op[3])}"
